@@ -8,6 +8,8 @@ from mbt import framework  # noqa: E402
 REGISTRY = {
     'C01': ('checks.streams', 'c01'),
     'C05': ('checks.streams', 'c05'),
+    'C06': ('checks.server', 'c06'),
+    'C07': ('checks.server', 'c07'),
     'C08': ('checks.streams', 'c08'),
     'C16': ('checks.streams', 'c16'),
 }
